@@ -35,7 +35,7 @@ ASSUMPTIONS = [
     "device-kind messages sent by a client may be relayed to other clients (the router routes by kind by design)",
     "liveness probes after the hostile message: a valid getProperties on the same connection is answered, a valid write is applied, a driver-side update reaches the sender and the observer",
 ]
-QUICK_RUNS = 1600
+QUICK_RUNS = 1900
 QUICK_BUDGET_S = 150
 THOROUGH_BUDGET_S = 360
 CHUNK = 25
@@ -44,7 +44,7 @@ STEP_KEYS = ("steps",)
 CATALOGUE = ["unknown_device", "unknown_property", "unknown_element", "kind_mismatch", "bad_value_parse_ok", "bad_value_parser_rejects",
              "blob_wrong_size", "blob_nonnumeric_size", "blob_missing_size", "blob_bad_base64", "no_children", "duplicate_children",
              "mixed_children", "device_kind_from_client", "enableblob_unknown_device", "unregistered_message_tag",
-             "enableblob_unregistered_sender", "getprops_odd"]
+             "enableblob_unregistered_sender", "getprops_odd", "empty_value", "blob_empty_wrong_size", "huge_number"]
 TRANSPORTS = ["tcp", "tty", "direct"]
 ONE = {"Text": "oneText", "Number": "oneNumber", "Switch": "oneSwitch", "BLOB": "oneBLOB", "Light": "oneText"}
 NEW = {"Text": "newTextVector", "Number": "newNumberVector", "Switch": "newSwitchVector", "BLOB": "newBLOBVector", "Light": "newTextVector"}
@@ -119,6 +119,28 @@ def hostile(rng, entry, dev, v):
         if kind == "Switch":
             return {"xml": wrap(f'<oneSwitch name="{e["name"]}">Maybe</oneSwitch>'), "valid": [], "parser_ok": False}
         return {"xml": wrap(cx), "valid": [cv], "parser_ok": True, "entry": "valid_control"}
+    if entry == "empty_value":
+        n = e["name"]
+        if kind == "BLOB":
+            return {"xml": wrap(f'<oneBLOB name="{n}" size="0" format=".e"/>'), "valid": [(n, (b"", ".e"))], "parser_ok": True}
+        if kind == "Switch":
+            return {"xml": wrap(f'<oneSwitch name="{n}"/>'), "valid": [], "parser_ok": False}
+        child = f'<{ONE[kind]} name="{n}"></{ONE[kind]}>'
+        return {"xml": wrap(child), "valid": [(n, None)], "parser_ok": True}
+    if entry == "blob_empty_wrong_size":
+        if kind != "BLOB":
+            return {"xml": wrap(cx), "valid": [cv], "parser_ok": True, "entry": "valid_control"}
+        return {"xml": wrap(f'<oneBLOB name="{e["name"]}" size="{rng.choice(["5", "x", "-1"])}" format=".b"/>'), "valid": [], "parser_ok": True}
+    if entry == "huge_number":
+        if kind != "Number":
+            return {"xml": wrap(cx), "valid": [cv], "parser_ok": True, "entry": "valid_control"}
+        txt = rng.choice(["1" + "0" * 400, "-" + "9" * 350, "1" + "0" * 5000, "0." + "0" * 400 + "1"])
+        # for an integer format the value is representable, so taking it is as acceptable as refusing it
+        try:
+            hv = [(e["name"], int(txt))] if "." not in txt and not V.is_sexa(e["format"]) else [(e["name"], float(txt))]
+        except ValueError:
+            hv = []
+        return {"xml": wrap(f'<oneNumber name="{e["name"]}">{txt}</oneNumber>'), "valid": hv, "parser_ok": True}
     if entry.startswith("blob_"):
         if kind != "BLOB":
             return {"xml": wrap(cx), "valid": [cv], "parser_ok": True, "entry": "valid_control"}
@@ -354,6 +376,7 @@ def execute(scen):
                 ok = False
                 for val in allowed.get(key, []):
                     if isinstance(val, float) or isinstance(val, int):
+                        ok = ok or a == val
                         try:
                             ok = ok or abs(float(a) - float(val)) < 1e-4 * max(1, abs(val)) + 1e-3
                         except Exception:
@@ -393,6 +416,17 @@ def execute(scen):
                 mv = d.get_vector(scen["live"]) if d else None
                 if mv is None or mv.get_element(live_el).value != uniq2:
                     viol.append({"clause": "C12.others", "detail": f"the observing client did not receive the next device update (sees {mv.get_element(live_el).value if mv else None!r}); {ctx}", "facts": facts})
+                    break
+            if observer.started and not viol and entry != "device_kind_from_client":
+                # (a device-kind message sent by a client is relayed to the other clients by design: it may legitimately
+                #  put something into the observer's view that the device does not have)
+                v2 = []
+                for dname in stack.drivers:
+                    c01.compare_view(sim, observer.name, observer.client, observer.model, observer.handshakes, stack, dname,
+                                     stack.truth(dname), v2, facts, observer.applied)
+                v2 = [x for x in v2 if not (x["clause"] == "C01.state" and x["facts"].get("kind") == "BLOB")]
+                if v2:
+                    viol.append({"clause": "C12.others", "detail": f"after the hostile message the observing client's view no longer matches the device: {v2[0]['detail'][:300]}; {ctx}", "facts": facts})
                     break
             if transport != "direct" and uniq2 not in (sender.received() or "")[mark_rx:]:
                 viol.append({"clause": "C12.open", "detail": f"the sending connection no longer receives device traffic; {ctx}", "facts": facts})
